@@ -143,6 +143,45 @@ def check_bmc(ast, unit, wd):
     return r
 
 
+class ScanUnit:
+    """Exhaustive declaration scan over the clang AST (supporting static fact, not a proof of behaviour)."""
+    def __init__(self, id, fn, props=(), note='', tier='quick'):
+        self.id = id
+        self.scan = fn
+        self.props = list(props)
+        self.note = note
+        self.tier = tier
+        self.backend = 'clang AST scan'
+        self.variants = None
+        self.bounded = None
+        self.fn = None
+        self.timeout = 60
+
+
+def check_scan(ast, unit):
+    r = UnitResult(unit)
+    t0 = time.time()
+    try:
+        items = unit.scan(ast)     # [(name, ok, description)]
+    except Exception as e:
+        r.reason = 'scan failed: %s' % e
+        return r
+    for name, ok, desc in items:
+        oid = 'scan.' + re.sub(r'[^A-Za-z0-9_.:]', '_', name)
+        r.obligations[oid] = {'desc': desc, 'status': 'SUCCESS' if ok else 'FAILURE'}
+        if not ok:
+            r.failed.append(oid)
+    r.facts = {'target': 'declaration scan ' + unit.id, 'src': '/repo/src/*.{h,cpp} (AST)'}
+    r.canaries = {'n/a': ('scan', 'FAILURE')}
+    if not items:
+        r.reason = 'scan found no declarations (vacuous)'
+    else:
+        r.status = 'failed' if r.failed else 'ok'
+    r.cmd = 'clang++ -Xclang -ast-dump=json (lib/astload.py) + ' + unit.id
+    r.wall = time.time() - t0
+    return r
+
+
 class Lemma:
     """An SMT-LIB lemma over mathematical integers, discharged by z3 (expected answer: unsat)."""
     def __init__(self, id, smt2, props=(), note='', tier='quick', solver='z3', timeout=60):
@@ -244,6 +283,10 @@ def ghost_bind(unit, cname):
 
 def find_one(ast, ref):
     q, sig = ref if isinstance(ref, (tuple, list)) else (ref, None)
+    if q.startswith('@'):
+        if q[1:] not in ast.defs:
+            raise LowerError("function with mangled name %s not found in the working tree" % q[1:])
+        return ast.defs[q[1:]]
     ds = ast.find_def(q, sig)
     if len(ds) != 1:
         raise LowerError("function %s %s: %d definitions found in the working tree" % (q, sig or '', len(ds)))
